@@ -9,20 +9,19 @@
 (*         vocabulary: NestEquiv (nested form = desugared form)            *)
 (*  short: every 1-4 value box shorthand / radius over a value set:        *)
 (*         ShorthandLaw                                                    *)
+(*  dseq : declaration sequences of one shorthand family in one rule       *)
+(*         (CssSeq): SeqLaw (cascade in a rule = reading in order)         *)
+(*  rseq : three rules in stacks of conditional wrappers (CssSeq): a       *)
+(*         wrapper identical to an enclosing one is transparent            *)
+(*         (DupWrapperLaw), WinnerUnique                                   *)
+(*         both export LABEL records; the harness draws a label-first      *)
+(*         covering sample and lets CssGen compute those cases             *)
 (* The state is a choice vector; the first step picks a part (so that the  *)
 (* workers share the enumeration), the second a vector of that part.       *)
 (***************************************************************************)
 EXTENDS CssGen
 
-CONSTANTS NParts, Family, Export, NestDepth, Small, ValStride, CascStride, NestStride
-
-PSel(s) == [t |-> "sel", s |-> s, c |-> NoCond, n |-> <<>>]
-PCond(t, c) == [t |-> t, s |-> "", c |-> c, n |-> <<>>]
-PLayer(n) == [t |-> "layer", s |-> "", c |-> NoCond, n |-> n]
-Q1(a, sp) == [neg |-> FALSE, atoms |-> <<[a |-> a, sp |-> sp]>>]
-D1(p, v, sp, imp) == [p |-> p, v |-> <<v>>, sp |-> <<sp>>, i |-> imp]
-RuleItem(path, decls) == [k |-> "rule", path |-> path, decls |-> decls, names |-> <<>>]
-StmtItem(names) == [k |-> "layer", path |-> <<>>, decls |-> <<>>, names |-> names]
+CONSTANTS NParts, Family, Export, NestDepth, Small, ValStride, CascStride, NestStride, SeqAllFams, SeqStride, SeqSize, ExportLabels
 
 Wraps == << <<>>, <<PLayer(<<"a">>)>>, <<PLayer(<<"b">>)>>, <<PCond("media", [r |-> "media", qs |-> <<Q1("w100", 1)>>])>>,
             <<PLayer(<<"a">>), PCond("media", [r |-> "media", qs |-> <<Q1("w100", 3)>>])>>, <<PLayer(<<>>)>>,
@@ -78,9 +77,44 @@ ValsCheck(c) ==
     /\ LET p == IF GridVals[ValKeys[c[2]]].kind = "color" THEN "color" ELSE "margin-top" IN
        Winner(sh, [feats |-> SheetFeats(sh), conds |-> [a \in {} |-> TRUE]], 1, p) = Canon(ValKeys[c[2]]))
 
+\* ---- declaration sequences (CssSeq).  SeqSize <= 2: longhands of the first and last side, shorthands with 1 and 4 values
+Code(k, c) == (k - 1) * 7 + c
+SeqSteps == {s \in 1..56 : StepK(s) \in (IF SeqSize <= 2 THEN {1, 4, 5, 8} ELSE {1, 2, 4, 5, 6, 8})}
+HashF(a, b, c) == ((a + b + c) % 4) + 1
+HashIp(a, b, c) == ((a + 2 * b + 3 * c) % 6) + 1
+SeqFamsOf(a, b, c) == IF SeqAllFams THEN 1..4 ELSE {HashF(a, b, c)}
+Strided(a, b, c) == (a + 3 * b + 5 * c) % SeqStride = 0
+Seq3 == UNION {{<<"dseq", f, HashIp(a, b, c), a, b, c, 0, 0>> : f \in SeqFamsOf(a, b, c)} :
+               <<a, b, c>> \in {x \in SeqSteps \X SeqSteps \X SeqSteps : Strided(x[1], x[2], x[3])}}
+\* a plain shorthand first (all sides known), two steps, then one more plain step
+Seq4 == UNION {{<<"dseq", f, HashIp(a, b, c), s, a, b, c, 0>> : f \in SeqFamsOf(s, a, b + c)} :
+               s \in {Code(5, 1), Code(8, 1)}, <<a, b, c>> \in SeqSteps \X SeqSteps \X {Code(1, 1), Code(4, 1), Code(5, 1)}}
+\* five longhands: side s twice in a row (classes c1, c2) at position p, the other sides plain, in order
+Others(s) == SetToSortSeq((1..4) \ {s}, <)
+L5Step(s, p, c1, c2, i) == IF i = p THEN Code(s, c1) ELSE IF i = p + 1 THEN Code(s, c2) ELSE Code(Others(s)[IF i < p THEN i ELSE i - 2], 1)
+Seq5 == {<<"dseq", f, ip, L5Step(s, p, c1, c2, 1), L5Step(s, p, c1, c2, 2), L5Step(s, p, c1, c2, 3), L5Step(s, p, c1, c2, 4), L5Step(s, p, c1, c2, 5)>> :
+           <<f, ip, s, p, c1, c2>> \in {x \in (1..4) \X (IF SeqAllFams THEN 1..6 ELSE {1, 3}) \X (1..4) \X (1..4) \X (1..7) \X (1..7) :
+                                         SeqAllFams \/ x[1] = ((x[3] + x[4] + x[5] + x[6]) % 4) + 1}}
+SeqChoices == {c \in Seq3 \cup Seq4 \cup Seq5 : SeqValid(c)}
+NRW == CASE SeqSize = 1 -> 5 [] SeqSize = 2 -> 7 [] OTHER -> Len(RWraps)
+RSeqChoices == {<<"rseq", a, b, c, sp, bp>> : a \in 1..NRW, b \in 1..NRW, c \in 1..NRW, sp \in 1..(CASE SeqSize = 1 -> 1 [] SeqSize = 2 -> 2 [] OTHER -> Len(RSels)), bp \in 1..Len(RBodies)}
+\* a conditional wrapper identical to one that encloses it changes nothing: the path without it is live in the same environments
+RECURSIVE DedupFrom(_, _)
+DedupFrom(path, k) == IF k = 0 THEN <<>>
+                      ELSE IF IsCondEl(path[k]) /\ \E j \in 1..(k - 1) : path[j] = path[k] THEN DedupFrom(path, k - 1)
+                      ELSE Append(DedupFrom(path, k - 1), path[k])
+Dedup(path) == DedupFrom(path, Len(path))
+DupWrapperLaw(sh) ==
+  \A ri \in 1..Len(sh) : Bind(Dedup(sh[ri].path), LAMBDA dp :
+     /\ PathFeats(dp) = PathFeats(sh[ri].path) /\ MediaFeats(dp) = MediaFeats(sh[ri].path)
+     /\ \A env \in EnvsOf(sh) : CondsTrueUpTo(dp, Len(dp), env) = CondsTrueUpTo(sh[ri].path, Len(sh[ri].path), env))
+
 FamChoices(dummy) == CASE Family = "casc" -> CascChoices [] Family = "nest" -> NestChoices [] Family = "short" -> ShortChoices
                        [] Family = "vals" -> ValsChoices
-                       [] Family = "all" -> CascChoices \cup NestChoices \cup ShortChoices \cup ValsChoices
+                       [] Family = "seq" -> SeqChoices \cup RSeqChoices
+                       [] Family = "dseq" -> SeqChoices
+                       [] Family = "rseq" -> RSeqChoices
+                       [] Family = "all" -> CascChoices \cup NestChoices \cup ShortChoices \cup ValsChoices \cup SeqChoices \cup RSeqChoices
 \* a cheap spreading function over the parts
 RECURSIVE SumFrom(_, _)
 SumFrom(c, k) == IF k > Len(c) THEN 0 ELSE c[k] * k + SumFrom(c, k + 1)
@@ -95,7 +129,14 @@ CascCheck(c) == Bind(CascSheet(c), LAMBDA sh :
                   /\ \A env \in EnvsOf(sh) : WinnerUnique(sh, info, env) /\ LayerOrderTotal(sh, env)))
 NestCheck(c) == NestEquiv(NestLists(c))
 ShortCheck(c) == WFDecl(ShortDecl(c)) /\ ShorthandLaw(ShortDecl(c))
-FamCheck(c) == CASE c[1] = "casc" -> CascCheck(c) [] c[1] = "nest" -> NestCheck(c) [] c[1] = "short" -> ShortCheck(c)
+DSeqCheck(c) == Bind(SeqDecls(c), LAMBDA ds :
+                  /\ \A i \in 1..Len(ds) : WFDecl(ds[i])
+                  /\ SeqLaw(ds, {FamLonghands(SeqFams[c[2]])[k] : k \in 1..4}))
+RSeqCheck(c) == Bind(RSeqSheet(c), LAMBDA sh :
+                Bind(SheetInfo(sh), LAMBDA info :
+                  /\ WFSheet(sh) /\ DupWrapperLaw(sh)
+                  /\ \A env \in EnvsOf(sh) : WinnerUnique(sh, info, env)))
+FamCheck(c) == CASE c[1] = "dseq" -> DSeqCheck(c) [] c[1] = "rseq" -> RSeqCheck(c) [] c[1] = "casc" -> CascCheck(c) [] c[1] = "nest" -> NestCheck(c) [] c[1] = "short" -> ShortCheck(c)
                  [] c[1] = "vals" -> ValsCheck(c)
 
 MCInit == part \in 1..NParts /\ ch = <<>> /\ ok = TRUE /\ gen_i = 0 /\ gen_out = FALSE
@@ -106,6 +147,7 @@ MCNext == /\ ch = <<>>
           /\ (Export /\ ch'[1] = "casc" /\ SumFrom(ch', 2) % CascStride = 0) => PrintT(<<"CASE", ToJson(Bind(CascSheet(ch'), LAMBDA sh : CaseOf(ch', sh) @@ [items |-> sh]))>>)
           /\ (Export /\ ch'[1] = "nest" /\ SumFrom(ch', 2) % NestStride = 0) =>
                 PrintT(<<"CASE", ToJson(Bind(NestSheet(ch'), LAMBDA sh : CaseOf(ch', sh) @@ [items |-> sh]))>>)
+          /\ (Export /\ ExportLabels /\ ch'[1] \in {"dseq", "rseq"}) => PrintT(<<"CASE", ToJson([lab |-> TRUE, c |-> ch', l |-> ChoiceLabels(ch')])>>)
           /\ (Export /\ ch'[1] = "vals") => PrintT(<<"CASE", ToJson(Bind(ValsSheet(ch'), LAMBDA sh : CaseOf(ch', sh) @@ [items |-> sh]))>>)
 MCSpec == MCInit /\ [][MCNext]_vars
 \* WinnerUnique + LayerOrderTotal (casc), NestEquiv (nest), ShorthandLaw (short) hold for every enumerated member
